@@ -536,6 +536,18 @@ func genScript(t *rapid.T) Script {
 				// an answer the operation expects no body from, with one all the same
 				r.Body = rapid.SampledFrom([]string{"error", "garbage", "blob", "big200k"}).Draw(t, "unexpectedBody")
 			}
+			if r.Status == 202 && (s.Op == "MountBlob" || s.Op == "PushBlob") {
+				// "accepted, an upload session has begun" - with a Location of every quality
+				if r.Headers == nil {
+					r.Headers = map[string]string{}
+				}
+				switch loc := rapid.SampledFrom([]string{"<absent>", "", "::bad", "http://[::1", "relative/path", "/v2/foo/blobs/uploads/aWQ", "\x7f"}).Draw(t, "acceptedLocation"); loc {
+				case "<absent>":
+					delete(r.Headers, "Location")
+				default:
+					r.Headers["Location"] = loc
+				}
+			}
 			if r.Status == 101 {
 				// an unsolicited protocol switch: net/http then hands over the connection itself as the body
 				r.Headers = map[string]string{"Connection": "Upgrade", "Upgrade": "websocket"}
